@@ -10,15 +10,16 @@ pub mod conc;
 pub mod evict;
 pub mod stress;
 pub mod hist_family;
+pub mod l3phases;
 
 use crate::engine::{Accum, Ctx};
 
 /// socket-level phase of C09 (filled in by the L3 layer)
-pub fn c09_l3_hook(_ctx: &Ctx, _acc: &Accum) -> Option<i32> {
-    None
+pub fn c09_l3_hook(ctx: &Ctx, acc: &Accum) -> Option<i32> {
+    l3phases::c09_socket_phase(ctx, acc)
 }
 
 /// concurrent phase of C14 (L2 programs of stores under eviction)
-pub fn c14_l2_hook(_ctx: &Ctx, _acc: &Accum) -> Option<i32> {
-    None
+pub fn c14_l2_hook(ctx: &Ctx, acc: &Accum) -> Option<i32> {
+    stress::phase(ctx, acc, "C14")
 }
